@@ -107,6 +107,7 @@ func CompileDir(dir, nameOverride string) *Compiled {
 	}
 	c := &Compiled{NEF: ne, Manifest: m, NEFBytes: nb, ManBytes: mb, Debug: di, dir: dir}
 	compileCache[key] = c
+	coverRegister(c)
 	return c
 }
 
